@@ -167,6 +167,14 @@ def make_tree(kind, seed, t):
                '<surName>S</surName></individualName></creator><contact><references>c1</references></contact>'
                '<additionalMetadata><metadata><x:unit xmlns:x="urn:x" x:a="1">u</x:unit></metadata></additionalMetadata></dataset></eml:eml>')
         return metapype_io.from_xml(xml, clean=rnd.random() < 0.5)
+    if kind == "unregistered":
+        # a live tree some of whose nodes (the root among them) are no longer in the registry - delete_node_instance(id,
+        # children=False) does that: the registry is part of what a read-only operation must leave alone
+        root = tables.TreeGen(t, seed, max_depth=3, breadth=3).gen(rnd.choice(["dataset", "creator", "project", "eml"]))
+        for i, n in enumerate(walk(root)):
+            if i % 2 == 0:
+                Node.delete_node_instance(n.id, children=False)
+        return root
     if kind == "exotic":
         # attribute / extras / namespace values (and content) of types the serialisers were not written for: a read-only
         # operation may refuse them (an exception is a result), it may not "repair" the tree
@@ -259,9 +267,9 @@ def run(rep, tier, seed):
     for i, kind in enumerate(["generated", "entities", "ns", "default-ns"] + (["generated", "entities"] if tier == "thorough" else [])):      # (small trees: 31^2 pairs of calls each)
         jobs.append((kind, seed * 101 + i, plan_pairs))
     # seeded sequences of length 24 on larger trees, incl. the fixture
-    nseq = 16 if tier == "quick" else 240
+    nseq = 18 if tier == "quick" else 270
     for i in range(nseq):
-        kind = ["fixture", "generated", "entities", "ns", "default-ns", "mutated", "stripped", "exotic"][i % 8]
+        kind = ["fixture", "generated", "entities", "ns", "default-ns", "mutated", "stripped", "exotic", "unregistered"][i % 9]
         jobs.append((kind, seed * 977 + i, [rnd.choice(sorted(ops)) for _ in range(24)]))
     traces = [tr for chunk in parallel(w_record, jobs, chunk=1) for tr in chunk]
     strip = lambda tr: {"init": tr["init"], "events": tr["events"]}  # noqa: E731
